@@ -103,10 +103,17 @@ def dec_id(x):
 
 def build(script, mapping, nulls, dyn=False, mid=False):
     from abmarl.sim.wrappers import SuperAgentWrapper
-    inner = (wrapstub.DynWStub if dyn else wrapstub.WStub)(script, nulls)
+    # half of the cases without intermediate wrapper: the null observations are declared (through
+    # the agents' public attribute) only AFTER the wrapper exists; it must hand out what is declared now
+    late = (not mid) and (len(mapping) + len(script[3])) % 2 == 1
+    inner = (wrapstub.DynWStub if dyn else wrapstub.WStub)(script, None if late else nulls)
     below = wrapstub.shift_obs_wrapper(inner) if (mid and not dyn) else inner
     w = SuperAgentWrapper(below, super_agent_mapping={sid(j): [aid(c) for c in l]
                                                       for j, l in enumerate(mapping)})
+    if late and nulls:
+        for i, v in enumerate(nulls):
+            if v and hasattr(inner.agents[aid(i)], "null_observation"):
+                inner.agents[aid(i)].null_observation = int(v[0])
     return inner, w
 
 
